@@ -2,38 +2,29 @@ package checks
 
 import (
 	"fmt"
+	"os"
+	"runtime"
+	"time"
 
 	"verifharness/vc"
-	"verifharness/world"
-
-	"github.com/hashicorp/serf/serf"
-	"github.com/hashicorp/serf/zzverif/vsched"
 )
 
 func init() {
 	vc.Register(&vc.Check{ID: "SMOKE", Level: "exploration", Serial: true, Run: func(ctx *vc.Ctx) {
-		x := vsched.Run(vsched.RunOpts{MaxSteps: 100000}, func() {
-			n, err := world.NewNode("a", 0)
-			if err != nil {
-				panic(err)
+		m := clusterModel{}
+		hist := []string{"join 1 0", "join 2 0", "leave 0", "pushpull 0 1", "tick"}
+		full := hist
+		for k := 0; k <= len(full); k++ {
+			hist = full[:k]
+			scn := "N=3;L=3;faults=0"
+			t0 := time.Now()
+			var st vc.BFSState
+			for i := 0; i < 1500; i++ {
+				st = m.Exec(scn, hist)
 			}
-			meta := serf.VEncodeTags(n.S, map[string]string{"role": "web"})
-			k, err := n.KnowPeers([]world.Peer{world.AlivePeer("b", 1, meta), world.AlivePeer("c", 2, meta)}, nil)
-			fmt.Println("join", k, err, "mlmembers", n.S.Memberlist().NumMembers())
-			vsched.Quiesce()
-			fmt.Println("members", n.SortedMembers())
-			n.S.UserEvent("deploy", []byte("x"), false)
-			n.Delegate().NotifyMsg(serf.VEncode(serf.VMsgLeave, &serf.VMessageLeave{LTime: 5, Node: "b"}))
-			vsched.Quiesce()
-			for _, e := range n.DrainEvents() {
-				fmt.Println("event", world.DescribeEvent(e))
-			}
-			for _, b := range n.Outbox() {
-				fmt.Printf("outbox type=%d len=%d\n", b[0], len(b))
-			}
-			fmt.Printf("%+v\n", serf.VDump(n.S))
-			n.S.Shutdown()
-		})
-		fmt.Printf("steps=%d points=%d panics=%v blocked=%v rootdone=%v\n", x.Steps, len(x.Points), x.Panics, x.Blocked, x.RootDone)
+			var ms runtime.MemStats
+			runtime.ReadMemStats(&ms)
+			fmt.Printf("heap=%dMB objs=%d gc=%d goroutines=%d %s %v: %v per exec (closure=%s); enabled=%d err=%q viol=%d\n", ms.HeapAlloc>>20, ms.HeapObjects, ms.NumGC, runtime.NumGoroutine(), scn, hist, time.Since(t0)/1500, os.Getenv("CL_NOCLOSURE"), len(st.Enabled), st.Err, len(st.Violations))
+		}
 	}})
 }
